@@ -66,6 +66,12 @@ func extractDocExamples(path string) ([]c13docExample, error) {
 }
 
 func c13repoRoot() string {
+	// the tree the harness was built against: where the linked lexer package's source is
+	if r := repoRoot(); r != "" {
+		if _, err := os.Stat(filepath.Join(r, "docs", "builtins.md")); err == nil {
+			return r
+		}
+	}
 	root := os.Getenv("VERIF_ROOT")
 	if root == "" {
 		root = "/verif"
